@@ -267,6 +267,11 @@ def hidden_fingerprint(objs):
                 out.append((type(o).__name__, k, repr(v)))
             elif isinstance(v, Point2D):
                 continue
+            elif type(v).__name__ == "Box":
+                try:
+                    out.append((type(o).__name__, k, repr((v.lowpt[0], v.lowpt[1], v.toppt[0], v.toppt[1]))))
+                except Exception:  # noqa: BLE001
+                    out.append((type(o).__name__, k, "Box?"))
             elif isinstance(v, (tuple, list)):
                 for x in v:
                     if type(x).__module__.startswith("shapepy") and not isinstance(x, Point2D):
@@ -401,7 +406,7 @@ def inject(case, k, mode, exc_name, ref, deep, k2=None, cold=False):
     curved = bool(tol and tol.curved)
     for qi, (qa, qb) in enumerate(zip(pan_after, pan_before)):
         # the library's own quadrature of a curved length depends on how the arcs are cut
-        rel = 1e-9 if not curved else (1e-2 if _is_length_entry(objs, qi) else 1e-5)
+        rel = 1e-9 if not curved else (1e-1 if _is_length_entry(objs, qi) else 1e-5)
         same = (qa == qb) if exact else (qa[0] == qb[0] and _plain_close(qa[1], qb[1], rel))
         if not same:
             return "VIOLATION", f"a query on the operands answers {qa!r}, before the call {qb!r}", site
